@@ -104,7 +104,9 @@ pub fn consume(ctx: &Arc<RunCtx>, tls: &mut ThreadLocalState, p: usize, n: usize
         let next = {
             let _b = ctx.blocked(PIPE_BASE + p, PH_CONSUME);
             let mut f = s.next();
-            block_on_with(Pin::new(&mut f), |_| { st.consumer_parks.fetch_add(1, ORD); })
+            let r = block_on_with(Pin::new(&mut f), |_| { st.consumer_parks.fetch_add(1, ORD); st.consumer_waiting.store(true, ORD); ctx.note_for_firer(); });
+            st.consumer_waiting.store(false, ORD);
+            r
         };
         match next {
             Some(v) => {
